@@ -68,6 +68,7 @@ fn main() {
             c22::run(args.seed ^ 0x22, (args.n / 8).max(10), &mut o);
             // deep recursion (implicit coercion at depth >= 3) is rare in the grammar-generated stream
             c22::run_deep_recursion(args.seed, (args.n / 10).max(20), &mut o);
+            c22::run_nested_imports(args.seed, (args.n / 10).max(20), &mut o);
             o.finish();
         }
         "c06" => {
@@ -80,6 +81,7 @@ fn main() {
             let mut o = out::Out::new(&args.out, "From TF Require Import Run RunNp.", 60);
             c01::run(args.seed, args.n, &mut o, false, 15, true);
             c22::run_deep_recursion(args.seed, (args.n / 10).max(20), &mut o);
+            c22::run_nested_imports(args.seed, (args.n / 10).max(20), &mut o);
             o.finish();
         }
         "c22" => {
